@@ -2,7 +2,7 @@
 Helper lemmas for SrcEqTzFile.lean: the constructor's checks agree with the model for every list of leap
 records (no range hypothesis on the corrections), chunking, the loops of `DataBlocks::parse`.
 -/
-import TzVerif.Generated.Src
+import TzVerif.SrcBase
 import TzVerif.Model.TzFile
 import TzVerif.Proofs.SrcEqTzString
 import TzVerif.Proofs.SrcEqZone
